@@ -251,3 +251,96 @@ func VH_C11_Maps() {
 	vh.Assert(found == n, "every emitted key is one of the supplied keys (same multiset)")
 	vh.Reach("sorted")
 }
+
+// VH_C11_LongMapEntries: map entries whose KEY and VALUE are long - key byte/text strings of 100, 126, 127, 128,
+// 200, 254, 255, 300 bytes (constant filler, symbolic first and last byte), values byte strings of 1, 100 or 300
+// bytes (symbolic first and last byte), written key-first or value-first inside the entry callback; one such
+// entry alone, or two entries with keys of the same length that differ (or not) in their last byte.  Expected,
+// recomputed independently: map head, then the entries in bytewise order of the encoded keys, each key and each
+// value emitted byte for byte as given; ErrDuplicatedKey iff the two keys are equal.  Seed C11-4 (key and value
+// buffers of a map entry carved out of one inline array: keys of 129..256 encoded bytes overwrite the value and
+// vice versa) was missed with keys of at most 24 bytes.
+func VH_C11_LongMapEntries() {
+	vh.MustReach("one", "two", "duplicate")
+	kl := []int{100, 126, 127, 128, 200, 254, 255, 300}[vh.Choose(8)]
+	vl := []int{1, 100, 300}[vh.Choose(3)]
+	text := vh.Choose(2) == 1
+	valueFirst := vh.Choose(2) == 1
+	n := 1 + vh.Choose(2)
+	mk := func(tag string, l int, ascii bool) []byte {
+		b := make([]byte, l)
+		for i := range b {
+			b[i] = 'k'
+		}
+		b[0], b[l-1] = vh.Byte(tag+".first"), vh.Byte(tag+".last")
+		if ascii {
+			vh.Assume(b[0] < 0x80 && b[l-1] < 0x80)
+		}
+		return b
+	}
+	refStr := func(major byte, b []byte) []byte {
+		var h []byte
+		switch {
+		case len(b) < 24:
+			h = []byte{major<<5 | byte(len(b))}
+		case len(b) < 256:
+			h = []byte{major<<5 | 24, byte(len(b))}
+		default:
+			h = []byte{major<<5 | 25, byte(len(b) >> 8), byte(len(b))}
+		}
+		return append(h, b...)
+	}
+	var mes []*MapEntryEncoder
+	var encK, encV [][]byte
+	for i := 0; i < n; i++ {
+		k := mk([]string{"k0", "k1"}[i], kl, text)
+		v := mk([]string{"v0", "v1"}[i], vl, false)
+		mes = append(mes, GenerateMapEntry(func(keyE *Encoder, valueE *Encoder) {
+			wk := func() {
+				if text {
+					keyE.EncodeTextString(string(k))
+				} else {
+					keyE.EncodeByteString(k)
+				}
+			}
+			if valueFirst {
+				valueE.EncodeByteString(v)
+				wk()
+			} else {
+				wk()
+				valueE.EncodeByteString(v)
+			}
+		}))
+		major := byte(2)
+		if text {
+			major = 3
+		}
+		encK = append(encK, refStr(major, k))
+		encV = append(encV, refStr(2, v))
+	}
+	var w vh.Sink
+	err := NewEncoder(&w).EncodeMap(mes)
+	if n == 2 && string(encK[0]) == string(encK[1]) {
+		vh.Reach("duplicate")
+		vh.Assert(err == ErrDuplicatedKey, "two equal long keys are refused")
+		return
+	}
+	vh.Assert(err == nil, "distinct long keys are encoded")
+	if err != nil {
+		return
+	}
+	want := []byte{0xa0 | byte(n)}
+	if n == 1 {
+		vh.Reach("one")
+		want = append(append(want, encK[0]...), encV[0]...)
+	} else {
+		vh.Reach("two")
+		first, second := 0, 1
+		if string(encK[1]) < string(encK[0]) {
+			first, second = 1, 0
+		}
+		want = append(append(want, encK[first]...), encV[first]...)
+		want = append(append(want, encK[second]...), encV[second]...)
+	}
+	vh.Assert(string(w.B) == string(want), "long keys and values are emitted byte for byte, entries in bytewise key order")
+}
